@@ -376,9 +376,13 @@ func c01Deliver(c *Check) {
 					return true
 				}
 				// range X node of a loop that stores the error for every element of the full recipient list
-				if st.name == "Start" {
+				if st.name != "AddRcpt" {
 					for _, rs := range rangesIn(r.FI.Decl.Body, func(rs *ast.RangeStmt) bool { return rs.X == n }) {
-						if wantRange != nil && !sameExpr(rs.X, wantRange) {
+						if st.name == "Start" {
+							if wantRange != nil && !sameExpr(rs.X, wantRange) {
+								continue
+							}
+						} else if acceptedObj == nil || objOf(info, rs.X) != acceptedObj {
 							continue
 						}
 						ok := false
